@@ -104,7 +104,15 @@ def as_int64_of_null(case, i, detail=None):
     return any(r.get(c) == "NULL" for r in pre["rows"] for c in cols)
 
 
-PREDS = {f.__name__: f for f in (as_int64_of_null, pow_identity_with_null, join_full_not_same_named, join_has_differently_named_keys,
+def trim_of_concat(case, i, detail=None):
+    """the step slices (trimstr) the result of a concat"""
+    st = _step(case, i)
+    if st[0] != "extend":
+        return False
+    return any(isinstance(h[1], list) and len(h[1]) > 0 and h[1][0] == "cat" for a in st[1] for h in _find_tag(a[1], "trim"))
+
+
+PREDS = {f.__name__: f for f in (trim_of_concat, as_int64_of_null, pow_identity_with_null, join_full_not_same_named, join_has_differently_named_keys,
                                  right_join_differently_named_keys, join_with_empty_side)}
 
 
